@@ -60,7 +60,7 @@ def shard(ctx, acc):
     plan = META["plan"][ctx.tier]
     flavours = F.S.FLAVOURS_MAIN if ctx.tier == "quick" else F.S.FLAVOURS_ALL
     for i in F.indices(ctx, plan["cases"]):
-        case = F.make_case(ctx.seed, PROP, i, families=("ONE0", "ONE1"), flavours=flavours)
+        case = F.make_case(ctx.seed, PROP, i, families=("ONE0", "ONE1", "REUSE0", "REUSE1"), flavours=flavours)
         hz, _ = F.classify(case)
         if hz:
             acc.inconclusive.append("generator bug: main-family case %d has hazard %s" % (i, sorted(hz)))
